@@ -167,6 +167,81 @@ def play(rng, bind_mode, n_msgs, horizon, stale_probe=False, unbind_race=False):
     return obs
 
 
+def nack_failure_session(kind, fail_mode):
+    """the SMSC sends a request the ESME cannot serve (an unsupported command, or a deliver_sm it cannot parse) and the negative answer
+    cannot be written (the connection fails at that moment): the PDU was read, so the received hook must still get it, once"""
+    from aiosmpplib.retrytimer import SimpleExponentialBackoff
+    loop = vsess.VLoop()
+    asyncio.set_event_loop(loop)
+    smsc = vsess.FakeSMSC(loop)
+    undo = vsess.install(loop, smsc)
+    obs = {'received': [], 'announced': []}
+    try:
+        esme, hook = vsess.quiet_esme(enquire_link_interval=30.0, socket_timeout=10.0, retry_timer=SimpleExponentialBackoff(200, 2))
+        q = {'alert': smppref.header(0x102, 0, 4242, b'\x01\x01123\x00\x01\x01456\x00'),
+             'submit_sm': smppref.encode_sm(4, 4242, src=b'111', dst=b'222', short_message=b'to the ESME?'),
+             'query_sm': smppref.header(3, 0, 4242, b'id1\x00\x01\x01123\x00'),
+             'broken_deliver_sm': smppref.header(5, 0, 4242, b'\x00\x01'),
+             'deliver_sm': smppref.encode_sm(5, 4242, src=b'111', dst=b'222', short_message=b'hello'),
+             'enquire_link': smppref.header(0x15, 0, 4242)}[kind]
+        obs['pdu'] = q
+
+        def sgate(msg, pdu):
+            obs['announced'].append(bytes(pdu))
+            if struct.unpack('>I', bytes(pdu)[4:8])[0] & 0x80000000 and fail_mode == 'lost_during_sending_hook':
+                smsc.conns[0].reset(delay=0.2)
+                return asyncio.sleep(0.6)
+            return None
+        hook.sending_gate = sgate
+
+        def rgate(msg, pdu):
+            obs['received'].append(bytes(pdu))
+            return None
+        hook.received_gate = rgate
+
+        def on_pdu(conn, pdu):
+            for p in vsess.split_pdus(pdu)[0]:
+                cmd, seq = struct.unpack('>I', p[4:8])[0], struct.unpack('>I', p[12:16])[0]
+                if cmd in (1, 2, 9):
+                    conn.send(vsess.bind_resp_for(p))
+                    if conn.index == 0:
+                        def feed(conn=conn):
+                            if fail_mode == 'write_error':
+                                conn.transport.fail_writes = ConnectionResetError('reset by peer while writing')
+                            conn.send(q)
+                        loop.call_later(1.0, feed)
+                elif cmd == 0x15:
+                    conn.send(smppref.header(0x80000015, 0, seq), delay=0.05)
+        smsc.on_pdu = on_pdu
+
+        async def main():
+            t = asyncio.create_task(esme.start())
+            await asyncio.sleep(8.0)
+            obs['start_done'] = t.done()
+            obs['n_conns'] = len(smsc.conns)
+            t.cancel()
+            try:
+                await t
+            except BaseException:  # noqa: BLE001
+                pass
+        loop.run_until_complete(main())
+    finally:
+        undo()
+        vsess.finish(loop)
+    return obs
+
+
+def oracle_nack_failure(obs):
+    if obs.get('start_done'):
+        return 'start() ended'
+    k = obs['received'].count(obs['pdu'])
+    if k != 1:
+        answered = [a[:16].hex() for a in obs['announced'] if a[12:16] == obs['pdu'][12:16] and a[4] & 0x80]
+        return (f'the inbound PDU {obs["pdu"][:16].hex()} was read (its answer {answered} was announced to the sending hook) but handed to the received '
+                f'hook {k} times')
+    return None
+
+
 def oracle(obs, bind_mode):
     log = obs['log']
     if obs['start_exc'] is not None:
@@ -306,6 +381,17 @@ def run(ctx):
         cases.append((f'({BIND_CMD[bind_mode]}, {term})', czl([1])))
         if i < 1:
             ctx.sample({'events': [(e[0], e[1] if isinstance(e[1], int) else 0, round(e[3], 2)) for e in obs['log'][:14]]})
+    # ---- a request that is answered negatively (or normally) while the connection fails: the PDU was read, the received hook gets it once
+    for kind in ('submit_sm', 'query_sm', 'broken_deliver_sm', 'deliver_sm', 'enquire_link', 'alert'):
+        for fail_mode in ('none', 'write_error', 'lost_during_sending_hook'):
+            obs = nack_failure_session(kind, fail_mode)
+            ctx.traces += 1
+            ctx.case(('answer_fails', kind, fail_mode), nontrivial=True)
+            ctx.count('family_answer_cannot_be_written')
+            msg = oracle_nack_failure(obs)
+            if msg:
+                ctx.violation(f'{kind} from the SMSC, connection failure while it is answered ({fail_mode}): {msg}',
+                              {'function': 'nack_failure', 'kind': kind, 'fail_mode': fail_mode})
     if proved or not getattr(ctx, 'build_failing', None):
         bad, errs = core.run_cases('C15', 'wire', IMPORTS, 'fun p : Z * list wevent => [if wire_ok (fst p) (snd p) then 1 else 0]', cases, shard=30)
         for fnm, out in errs:
@@ -328,6 +414,13 @@ def replay(ctx, path):
         print('replay: scenario regenerated from scenario_seed;', len(obs['log']), 'events; oracle says:', oracle(obs, rp['bind_mode']))
         for e in obs['log'][:60]:
             print('  ', e[0], e[1], e[2][:16].hex(), round(e[3], 3))
+    elif rp.get('function') == 'nack_failure':
+        obs = nack_failure_session(rp['kind'], rp['fail_mode'])
+        msg = oracle_nack_failure(obs)
+        print('replay: PDUs announced to the sending hook:', [a[:16].hex() for a in obs['announced']])
+        print('replay: PDUs handed to the received hook:', [a[:16].hex() for a in obs['received']])
+        print('replay:', msg or 'property holds on this input')
+        return 1 if msg else 0
     else:
         print(json.dumps(rp)[:1500])
     return 0
